@@ -2,6 +2,7 @@ mod corpus;
 mod engine;
 #[allow(dead_code)]
 mod fam;
+mod incfiles;
 #[allow(dead_code)]
 mod pc;
 #[allow(dead_code)]
